@@ -43,8 +43,8 @@ def label_text():
         tree = ast.parse(src)
         index_to_frame = sum(1 for x in ast.walk(tree) if isinstance(x, ast.Call) and isinstance(x.func, ast.Attribute) and x.func.attr == "to_frame"
                              and isinstance(x.func.value, ast.Attribute) and x.func.value.attr == "index")
-        other = _calls(src, "astype") + _calls(src, "eval") + index_to_frame
-        recs.append({"oid": f"structural.one_rendering/{label}", "ok": bool(has and n == want and other == 0), "backend": "ast",
+        other = _calls(src, "eval") + index_to_frame  # (reading label text back with eval / rendering through a frame of the levels)
+        recs.append({"oid": f"structural.one_rendering/{label}", "ok": bool(has and n >= want and other == 0), "backend": "ast",
                      "note": f"{n} call(s) of multiindex_label_text (expected {want}); other ways of building label text / reading it back in the function: {other}"})
     if not has:
         return recs
